@@ -119,7 +119,7 @@ func c17Run(c *vcore.Ctx) *vcore.Violation {
 				return nil
 			}
 			marker := fmt.Sprintf("%s/c17-marker-%d", c.Dir, r.id)
-			script := []string{"fds", "10"}
+			script := []string{"fds", "24"}
 			if r.kind == "ptrace" {
 				// one traced call carrying this run's marker: the verdict must be this run's own
 				script = append(script, "sys", "258", "-100", "s:"+marker, "0755", "0", "0", "0")
@@ -156,7 +156,7 @@ func c17Run(c *vcore.Ctx) *vcore.Violation {
 				if r.verdict == "kill" {
 					want = runner.StatusDisallowedSyscall
 				}
-				if r.res.Status != want || len(r.out.find("fd ")) != 10 && r.verdict != "kill" {
+				if r.res.Status != want || len(r.out.find("fd ")) != 24 && r.verdict != "kill" {
 					break // a deviation: keep it for the oracle below
 				}
 			}
@@ -193,6 +193,43 @@ func c17Run(c *vcore.Ctx) *vcore.Violation {
 			}()
 		}
 	}
+	// other goroutines of the host create descriptors through raw system calls the way package syscall
+	// documents it: under the read side of ForkLock, close-on-exec set before the lock is released. No
+	// launch may fall into such a section (that is what the write side of the lock is for)
+	if src.Bool(1, 2, "raw_descriptor_noise") {
+		c.Event("raw_descriptor_noise")
+		c.Fault("descriptors_created_under_forklock_rlock")
+		for g := 0; g < 4; g++ {
+			noiseWG.Add(1)
+			go func() {
+				defer noiseWG.Done()
+				<-start
+				for i := 0; i < 100000; i++ {
+					select {
+					case <-stopNoise:
+						return
+					default:
+					}
+					var p [2]int
+					syscall.ForkLock.RLock()
+					if err := syscall.Pipe(p[:]); err != nil {
+						syscall.ForkLock.RUnlock()
+						return
+					}
+					time.Sleep(200 * time.Microsecond)
+					syscall.CloseOnExec(p[0])
+					syscall.CloseOnExec(p[1])
+					syscall.ForkLock.RUnlock()
+					syscall.Close(p[0])
+					syscall.Close(p[1])
+					time.Sleep(100 * time.Microsecond)
+				}
+			}()
+		}
+		if rounds == 1 {
+			rounds = 4
+		}
+	}
 	ok := watchdog(90*time.Second, func() { close(start); wg.Wait(); close(stopNoise); noiseWG.Wait() })
 	if !ok {
 		return vcore.Violate(prop, "hang", "batch", "a batch of %d concurrent runs did not finish", n)
@@ -222,7 +259,7 @@ func c17Run(c *vcore.Ctx) *vcore.Violation {
 		}
 		// descriptor table: 0,1,2 and the run's own file on 3, nothing else
 		fds := r.out.find("fd ")
-		if len(fds) != 10 {
+		if len(fds) != 24 {
 			if r.verdict == "kill" {
 				continue
 			}
